@@ -815,7 +815,7 @@ class Cycles(Base):
         if v == "prehello-junk":
             serial, data = c.build(4, path=b"/", iface=b"com.verif.P", member=b"Early", sender=b":1.0")
             c.send_msg(data, serial)
-            c.wait_eof()
+            self.part.count("cycle:prehello-junk:" + ("disconnected" if c.wait_eof() else "kept"))
             self.inspect_new(c, "traffic-before-hello")
             c.close()
             return v
